@@ -616,6 +616,44 @@ func ruleALBump(c *Ctx) {
 	}
 	c.Rule("AL-BUMP", "", 0)
 	c.Check(okPtr, key+"/slot-address", P.pos(ret.Pos()), "the pointer returned is array + index*size", "the pointer returned is not array + index*size of the type's arena")
+	// the length of an arena only ever grows by one (an allocation) or goes back to zero (Close, a fresh entry):
+	// a slot handed out stays handed out until the bank is closed
+	if R.entry != nil {
+		nLen := 0
+		for _, fn := range P.ModuleFuncs() {
+			for _, b := range fn.Blocks {
+				for _, in := range b.Instrs {
+					st, ok := in.(*ssa.Store)
+					if !ok {
+						continue
+					}
+					fa, ok := st.Addr.(*ssa.FieldAddr)
+					if !ok || fieldName(fa.X.Type(), fa.Field) != R.len {
+						continue
+					}
+					pt, isPtr := fa.X.Type().Underlying().(*types.Pointer)
+					if !isPtr || !types.Identical(types.Unalias(pt.Elem()), types.Type(R.entry)) {
+						continue
+					}
+					nLen++
+					okStore := false
+					if k, isK := constInt(st.Val); isK && k == 0 {
+						okStore = true
+					}
+					if add, isAdd := st.Val.(*ssa.BinOp); isAdd && add.Op == token.ADD {
+						if one, isOne := constInt(add.Y); isOne && one == 1 {
+							if ld, isLd := add.X.(*ssa.UnOp); isLd && ld.Op == token.MUL {
+								if fa2, isFA := ld.X.(*ssa.FieldAddr); isFA && fa2.Field == fa.Field && fa2.X == fa.X {
+									okStore = true
+								}
+							}
+						}
+					}
+					c.Check(okStore, fmt.Sprintf("%s/len-store#%d", fnKey(fn), nLen), P.pos(st.Pos()), "the arena length is incremented by one or reset to zero", "an arena's length is given a value other than itself plus one, or zero: a slot that is still in use can be handed out again")
+				}
+			}
+		}
+	}
 	// idx is a load of len that precedes the store len = len+1
 	var lenStore *ssa.Store
 	for _, b := range al.Blocks {
